@@ -38,6 +38,12 @@ def execute(desc):
         stats['validated'] += 1
         if r:
             raise P.StepFail('wellformed_' + r[0], r[1], k, step)
+        if len(y.get_blocks_charge()):      # (to_nonsymmetric() of an entirely empty tensor raises: known finding listed under C01)
+            # to_nonsymmetric() is a public operation too: its result, a tensor of the dense configuration, has to be well-formed
+            r = validate_tensor(y.to_nonsymmetric())
+            stats['validated'] += 1
+            if r:
+                raise P.StepFail('wellformed_to_nonsymmetric_' + r[0], r[1], k, step)
 
     try:
         state, yp, info = P.execute_program(desc, on_step=on_step, observers=False)
